@@ -795,27 +795,29 @@ type goodKey struct {
 
 func genGoodKey(bits int) goodKey {
 	deadline := make(chan struct{})
-	timer := time.AfterFunc(120*time.Second, func() { close(deadline) })
+	timer := time.AfterFunc(240*time.Second, func() { close(deadline) })
 	defer timer.Stop()
-	for {
-		p, err := safeprime.Generate(bits, deadline)
-		if err != nil || p == nil {
-			hx.Fatal("safe prime generation (%d bits): %v", bits, err)
+	gen := func(ok func(p *gobig.Int) bool) *gobig.Int {
+		for {
+			p, err := safeprime.Generate(bits, deadline)
+			if err != nil || p == nil {
+				hx.Fatal("safe prime generation (%d bits): %v", bits, err)
+			}
+			P := M(p)
+			if !P.ProbablyPrime(40) || !half(P).ProbablyPrime(40) {
+				hx.Fatal("safeprime.Generate returned %v, not a safe prime", P)
+			}
+			if ok(P) {
+				return P
+			}
 		}
-		q, err := safeprime.Generate(bits, deadline)
-		if err != nil || q == nil {
-			hx.Fatal("safe prime generation (%d bits): %v", bits, err)
-		}
-		P, Q := M(p), M(q)
-		// the conditions of keyproof.CanProve, evaluated here
-		if P.Cmp(Q) == 0 || m8(P) == 1 || m8(Q) == 1 || m8(P) == m8(Q) || m8(half(P)) == 1 || m8(half(Q)) == 1 || m8(half(P)) == m8(half(Q)) {
-			continue
-		}
-		if !P.ProbablyPrime(40) || !Q.ProbablyPrime(40) || !half(P).ProbablyPrime(40) || !half(Q).ProbablyPrime(40) {
-			hx.Fatal("safeprime.Generate returned a non-safe prime")
-		}
-		return goodKey{P, Q, half(P), half(Q), mul(P, Q)}
 	}
+	// the conditions of keyproof.CanProve, evaluated here
+	P := gen(func(p *gobig.Int) bool { return m8(p) != 1 && m8(half(p)) != 1 })
+	Q := gen(func(q *gobig.Int) bool {
+		return q.Cmp(P) != 0 && m8(q) != 1 && m8(half(q)) != 1 && m8(q) != m8(P) && m8(half(q)) != m8(half(P))
+	})
+	return goodKey{P, Q, half(P), half(Q), mul(P, Q)}
 }
 
 func honestComponents(a *hx.Args, res *hx.Result, thorough bool) {
@@ -885,6 +887,10 @@ func honestComponents(a *hx.Args, res *hx.Result, thorough bool) {
 			c := makeComps(q)[ci]
 			rng := hx.Rng(a.Seed, fmt.Sprintf("honest/%d/%d", k, ci))
 			for i := range *c.resp {
+				// the 250-round protocol is expensive: quick runs alter the first and last two rounds and a seeded fifth of the rest
+				if L := len(*c.resp); !thorough && L > 100 && i > 1 && i < L-2 && rng.Intn(5) != 0 {
+					continue
+				}
 				orig := (*c.resp)[i]
 				alts := []struct {
 					kind string
@@ -908,7 +914,7 @@ func honestComponents(a *hx.Args, res *hx.Result, thorough bool) {
 						res.Count("altered-accepted:" + c.name)
 					}
 					// and through the conjunction with the plain checks
-					if al.kind == "plus1" {
+					if al.kind == "plus1" && (thorough || len(*c.resp) < 100 || i%5 == 0) {
 						judge(res, "QSPP", codeQSPP(n, ch, *q), ownQSPP(n, ch, *q), false, dd)
 					}
 					(*c.resp)[i] = orig
